@@ -156,3 +156,118 @@ _add(Cond('frame_binop_series_columns', [('y0', 'int'), ('y1', 'int')] + [(p, 'i
         functions=['Frame._ufunc_binary_operator'],
         bounds='2x2 frame minus a Series of 2 whose labels are symbolic in 0..2; all cells UNBOUNDED symbolic ints',
         route='Frame - Series: the Series is aligned with the columns by label', timeout=300))
+
+
+# ---------------------------------------------------------------- index set algebra
+
+def body_index_sets(env, z0, z1, z2, nb, same):
+    from vf import rt
+    la = [3, 0, 2]      # unsorted on purpose
+    lb = [concretize(v, 0, 4) for v in (z0, z1, z2)][:concretize(nb, 0, 3)]
+    same = bool(same)
+
+    def run():
+        sf = env.sf
+        a = sf.Index(la)
+        b = sf.Index(list(la)) if same else sf.Index(lb)
+        rb = la if same else lb
+        out, exp = [], []
+        for name, want in (('union', [x for x in range(5) if x in la or x in rb]),
+                           ('intersection', [x for x in range(5) if x in la and x in rb]),
+                           ('difference', [x for x in range(5) if x in la and x not in rb])):
+            r = getattr(a, name)(b)
+            vals = [env.obs(v) for v in r.values.tolist()]
+            out.append([sorted(vals), len(vals)])
+            exp.append([want, len(want)])
+            if same and name != 'difference':
+                out.append(vals)        # identical operands keep their order
+                exp.append(la)
+        # the operands are unchanged
+        out.append([env.obs(a.values.tolist()), env.obs(b.values.tolist())])
+        exp.append([la, rb])
+        return out, exp
+    return rt.untraced(run)
+
+
+_add(Cond('index_set_algebra', [(p, 'int') for p in ('z0', 'z1', 'z2', 'nb')] + [('same', 'bool')], body_index_sets,
+        ranges={'z0': (0, 4), 'z1': (0, 4), 'z2': (0, 4), 'nb': (0, 3)},
+        pre=['z0 != z1', 'z0 != z2', 'z1 != z2', '(not same) or (nb == 0 and z0 == 0 and z1 == 1 and z2 == 2)'],
+        functions=['IndexBase.union', 'IndexBase.intersection', 'IndexBase.difference', '_ufunc_set_1d'],
+        bounds='Index [3, 0, 2] with an Index of 0..3 distinct labels symbolic in 0..4 (any order: disjoint / overlapping / equal sets), or with an identical copy',
+        route='Index.union / intersection / difference: exactly the labels set algebra prescribes, each once; identical operands keep their order', timeout=400))
+
+
+# ---------------------------------------------------------------- hierarchical labels: alignment by label tuple
+
+def body_hier_binop(env, swap, p0, p1, drop, how):
+    """Left operand on IndexHierarchy.from_product (one inner Index object shared by all outer groups); right operand holds the
+    same tuples in a symbolic order (outer groups swapped, inner labels of either group permuted), optionally one leaf less."""
+    from vf import rt
+    swap, p0, p1, drop, how = bool(swap), bool(p0), bool(p1), concretize(drop, 0, 4), concretize(how, 0, 1)
+
+    def run():
+        sf = env.sf
+        left_t = [(0, 10), (0, 11), (1, 10), (1, 11)]
+        g0 = [(0, 11), (0, 10)] if p0 else [(0, 10), (0, 11)]
+        g1 = [(1, 11), (1, 10)] if p1 else [(1, 10), (1, 11)]
+        right_t = (g1 + g0) if swap else (g0 + g1)
+        if drop < 4:
+            right_t = [t for i, t in enumerate(right_t) if i != drop]
+        va = {t: 100 + i for i, t in enumerate(left_t)}
+        vb = {t: 7 * (i + 1) for i, t in enumerate(right_t)}
+        ia = sf.IndexHierarchy.from_product((0, 1), (10, 11))
+        ib = sf.IndexHierarchy.from_labels(right_t)
+        if how == 0:
+            a = sf.Series(env.array([va[t] for t in left_t], 'int64'), index=ia)
+            b = sf.Series(env.array([vb[t] for t in right_t], 'int64'), index=ib)
+            r = a - b
+            pairs = [[list(map(env.obs, t)), env.obs(v)] for t, v in zip(r.index, r.values.tolist())]
+        else:
+            a = sf.Frame.from_items((('x', env.array([va[t] for t in left_t], 'int64')),), index=ia)
+            b = sf.Frame.from_items((('x', env.array([vb[t] for t in right_t], 'int64')),), index=ib)
+            r = a - b
+            pairs = [[list(map(env.obs, t)), env.obs(v)] for t, v in zip(r.index, r['x'].values.tolist())]
+        got = [sorted(pairs, key=lambda p: p[0]), env.obs(ia.equals(ib)), env.obs(ib.equals(ia))]
+        exp = [[[list(t), (va[t] - vb[t] if t in vb else M)] for t in sorted(left_t)], left_t == right_t, left_t == right_t]
+        return got, exp
+    return rt.untraced(run)
+
+
+_add(Cond('hierarchical_binop_alignment', [('swap', 'bool'), ('p0', 'bool'), ('p1', 'bool'), ('drop', 'int'), ('how', 'int')], body_hier_binop,
+        ranges={'drop': (0, 4), 'how': (0, 1)},
+        functions=['IndexHierarchy.equals', 'IndexLevel.equals', 'Series._ufunc_binary_operator'],
+        bounds='2x2 product hierarchy (from_product: shared inner Index) against the same tuples in a symbolic order (outer groups swapped, inner labels of each group permuted), optionally one leaf dropped; Series or one-column Frame (symbolic); concrete cells',
+        route='Series/Frame - Series/Frame on hierarchical labels: values paired by label tuple; IndexHierarchy.equals true only for the identical order', timeout=400))
+
+
+# ---------------------------------------------------------------- Frame.via_T op Series: the Series is aligned with the INDEX
+
+def body_via_T(env, y0, y1, n, wide):
+    from vf import rt
+    ls = [concretize(y0, 10, 12), concretize(y1, 10, 12)][:concretize(n, 1, 2)]
+    wide = bool(wide)
+
+    def run():
+        sf = env.sf
+        # square (2x2) or wide (2x3): with two row labels the aligned frame is square exactly when the Series brings no new label
+        items = [('a', env.array([1, 2], 'int64')), ('b', env.array([3, 4], 'int64'))] + ([('c', env.array([5, 6], 'int64'))] if wide else [])
+        f = sf.Frame.from_items(items, index=[10, 11])
+        s = sf.Series(env.array([100 * (k + 1) for k in range(len(ls))], 'int64'), index=ls)
+        r = f.via_T - s
+        vs = {l: 100 * (k + 1) for k, l in enumerate(ls)}
+        rows = {10: [1, 3, 5], 11: [2, 4, 6]}
+        ncols = 3 if wide else 2
+        labels = sorted(set(rows) | set(ls))
+        ridx = [env.obs(x) for x in r.index.values.tolist()]
+        vals = r.values.tolist()
+        got = [[ridx[i], [env.obs(v) for v in vals[i]]] for i in sorted(range(len(ridx)), key=lambda t: ridx[t])]
+        exp = [[l, [(rows[l][c] - vs[l] if l in rows and l in vs else M) for c in range(ncols)]] for l in labels]
+        return [got, env.obs(r.columns.values.tolist())], [exp, ['a', 'b', 'c'][:ncols]]
+    return rt.untraced(run)
+
+
+_add(Cond('frame_via_T_series_rows', [('y0', 'int'), ('y1', 'int'), ('n', 'int'), ('wide', 'bool')], body_via_T,
+        ranges={'y0': (10, 12), 'y1': (10, 12), 'n': (1, 2)}, pre=['y0 != y1'],
+        functions=['Frame._ufunc_binary_operator', 'TypeBlocks._ufunc_binary_operator'],
+        bounds='2x2 (square) or 2x3 frame; via_T minus a Series of 1..2 labels symbolic in 10..12 (aligned frame square or not); concrete cells',
+        route='Frame.via_T - Series: the Series is aligned with the row labels and applied down every column', timeout=300))
